@@ -33,7 +33,7 @@ const (
 	clOther                  // anything else: must only return
 )
 
-var alphabet = []string{"@", "@@", `"a"`, `'b'`, "Ident", "Nope", "(", ")", "[", "]", "{", "}", "|", "?", "*", "+", "!", "~", "(?=", "(?!", ":", "#", `"unterminated`, "'", "`raw", "'x"}
+var alphabet = []string{"@", "@@", `"a"`, `'@'`, "Ident", "Nope", "(", ")", "[", "]", "{", "}", "|", "?", "*", "+", "!", "~", "(?=", "(?!", ":", "#", `"unterminated`, "'", "`raw", "'x"}
 
 type rec struct {
 	toks []string
@@ -52,10 +52,10 @@ func (r *rec) peek() string {
 }
 func (r *rec) next() string { t := r.peek(); r.i++; return t }
 
-func isLit(t string) bool { return t == `"a"` || t == `'b'` }
+func isLit(t string) bool { return t == `"a"` || t == `'@'` }
 func startsTerm(t string) bool {
 	switch t {
-	case "@", "@@", `"a"`, `'b'`, "Ident", "Nope", "(", "[", "{", "~", "!", "(?=", "(?!":
+	case "@", "@@", `"a"`, `'@'`, "Ident", "Nope", "(", "[", "{", "~", "!", "(?=", "(?!":
 		return true
 	}
 	return false
@@ -427,10 +427,10 @@ var seeds = [][]string{
 	{"@", "(", "Ident", "|", `"a"`, ")"}, {`"a"`, "|", "@", "Ident"}, {"[", "@", "Ident", "]"}, {"{", "@", "Ident", "}"},
 	{"(", `"a"`, "@", "Ident", ")", "?"}, {"(", `"a"`, "|", "Ident", ")", "+", "@", "Ident"}, {"@", "(", `"a"`, "Ident", ")", "!"},
 	{"~", `"a"`}, {"@", "~", `"a"`}, {"!", "Ident", "@", "Ident"}, {"(?=", `"a"`, ")", "@", "Ident"}, {"(?!", `"a"`, "Ident", ")", "@", "Ident"},
-	{`"a"`, ":", "Ident"}, {"@", `"a"`, ":", "Ident"}, {"@", "Ident", "(", `'b'`, "@", "Ident", ")", "*"},
-	{"(", "(", "@", "Ident", ")", ")"}, {"[", "{", "@", "Ident", "}", "]"}, {"@", "Ident", "|", "@", `"a"`, "|", "@", `'b'`},
-	{"(", "@", "Ident", "|", `"a"`, ")", "(", "@", "Ident", ")", "?"}, {"~", "(", `"a"`, "|", `'b'`, ")", "@", "Ident"},
-	{"@", "(", "~", `"a"`, ")", "*"}, {"(?=", "Ident", "Ident", ")", "@", "Ident", "@", "Ident"}, {`"a"`, "?", `'b'`, "*", "@", "Ident", "+"},
+	{`"a"`, ":", "Ident"}, {"@", `"a"`, ":", "Ident"}, {"@", "Ident", "(", `'@'`, "@", "Ident", ")", "*"},
+	{"(", "(", "@", "Ident", ")", ")"}, {"[", "{", "@", "Ident", "}", "]"}, {"@", "Ident", "|", "@", `"a"`, "|", "@", `'@'`},
+	{"(", "@", "Ident", "|", `"a"`, ")", "(", "@", "Ident", ")", "?"}, {"~", "(", `"a"`, "|", `'@'`, ")", "@", "Ident"},
+	{"@", "(", "~", `"a"`, ")", "*"}, {"(?=", "Ident", "Ident", ")", "@", "Ident", "@", "Ident"}, {`"a"`, "?", `'@'`, "*", "@", "Ident", "+"},
 	{"@", "(", "Ident", ")", "?"}, {"(", "@", "Ident", ")", "!"}, {"{", `"a"`, "|", "@", "Ident", "}"}, {"[", `"a"`, "]", "[", "@", "Ident", "]"},
 }
 
@@ -723,8 +723,52 @@ func unionCustomJob(w *hx.Worker) {
 	judge(w, "corpus type=UnionAndCustom opts=Union only", clOther, "", tryBuild(UnionAndCustom{}, union))
 }
 
+// a non-recursive grammar in which every level refers to the next one twice (a diamond at every level): the
+// number of reference PATHS doubles per level, the number of productions does not.
+type twLeaf struct {
+	V string `@Ident`
+}
+type twL[T any] struct {
+	A *T `"a" @@`
+	B *T `| "(" @@ ")"`
+}
+
+var towers = []struct {
+	levels int
+	v      any
+}{
+	{4, twL[twL[twL[twL[twLeaf]]]]{}},
+	{16, twL[twL[twL[twL[twL[twL[twL[twL[twL[twL[twL[twL[twL[twL[twL[twL[twLeaf]]]]]]]]]]]]]]]]{}},
+	{36, twL[twL[twL[twL[twL[twL[twL[twL[twL[twL[twL[twL[twL[twL[twL[twL[twL[twL[twL[twL[twL[twL[twL[twL[twL[twL[twL[twL[twL[twL[twL[twL[twL[twL[twL[twL[twLeaf]]]]]]]]]]]]]]]]]]]]]]]]]]]]]]]]]]]]{}},
+}
+
 func corpusJob(w *hx.Worker) {
 	unionCustomJob(w)
+	for _, tw := range towers {
+		key := fmt.Sprintf("corpus type=tower of %d levels, each referring to the next twice", tw.levels)
+		judge(w, key, clValid, "", tryBuild(tw.v))
+		w.DistinctS(key)
+	}
+	// options may be listed in any order: a mapper for a token type of the lexer that is named AFTER it
+	for i, opts := range [][]participle.Option{
+		{participle.Upper("Punct"), participle.Lexer(lexDef), participle.Union[any](RightRec{})},
+		{participle.Unquote("Punct"), participle.Elide("Space"), participle.Lexer(lexDef), participle.Union[any](RightRec{})},
+		{participle.Union[any](RightRec{}), participle.Map(func(t lexer.Token) (lexer.Token, error) { return t, nil }, "Space", "Punct"), participle.Lexer(lexDef)},
+	} {
+		key := fmt.Sprintf("corpus type=RightRec options listed before Lexer(), variant %d", i)
+		var o buildOutcome
+		pan, msg := hx.Guard(func() {
+			p, err := participle.Build[any](opts...)
+			o.err = err
+			o.built = p != nil
+			o.both = (p != nil) == (err != nil)
+		})
+		if pan {
+			o.panicked = msg
+		}
+		judge(w, key, clValid, "", o)
+		w.DistinctS(key)
+	}
 	for _, c := range corpus {
 		key := "corpus type=" + c.name
 		judge(w, key, c.cl, "", tryBuild(c.v))
@@ -804,7 +848,7 @@ func plan(c *hx.Ctx) *hx.Plan {
 			}
 		},
 		Describe: func(i int) string { return fmt.Sprintf("%s#%d", js[i].kind, js[i].idx) },
-		Rule:     "(a) every sequence of tag tokens up to the length bound over the 23-token alphabet {@ @@ \"a\" 'b' Ident Nope ( ) [ ] { } | ? * + ! ~ (?= (?! : # unterminated-string}, as one field and split over two fields at every position, in whole-tag and parser:\"...\" form, as struct types made with reflect.StructOf (two-field splits of up to 3 tokens also inside 1, 3 and 5 levels of embedded structs); (b) every single-token insertion/deletion/replacement applied to 32 valid seed tags; (c) 25 field types x 12 tags x {plain, unexported neighbour, embedded neighbour}; (d) a static corpus of recursive / mutually recursive / anonymous / interface-typed declarations x option sets (unknown symbols, bad unions, duplicate custom parsers). A reference recogniser of the documented tag syntax classifies each case as must-build / must-fail (the property's named malformation classes) / must-return. evaluations = Build calls",
+		Rule:     "(a) every sequence of tag tokens up to the length bound over the 23-token alphabet {@ @@ \"a\" '@' Ident Nope ( ) [ ] { } | ? * + ! ~ (?= (?! : # unterminated-string}, as one field and split over two fields at every position, in whole-tag and parser:\"...\" form, as struct types made with reflect.StructOf (two-field splits of up to 3 tokens also inside 1, 3 and 5 levels of embedded structs); (b) every single-token insertion/deletion/replacement applied to 32 valid seed tags; (c) 25 field types x 12 tags x {plain, unexported neighbour, embedded neighbour}; (d) a static corpus of recursive / mutually recursive / anonymous / interface-typed declarations x option sets (unknown symbols, bad unions, duplicate custom parsers). A reference recogniser of the documented tag syntax classifies each case as must-build / must-fail (the property's named malformation classes) / must-return. evaluations = Build calls",
 		Bounds:   map[string]any{"soup_max_tokens": maxLen, "alphabet": alphabet, "seeds": len(seeds)},
 		Assume:   []string{"Elide() of an unknown token type panics at parse time by design (configuration error, not enumerated)", "struct types that reflect.StructOf cannot construct are skipped (counted)"},
 	}
